@@ -50,6 +50,11 @@ func genSpec(c *pbt.C) *sim.Spec {
 			spec.Tokens[i].Max = big.NewInt(total)
 		}
 	}
+	// assets and pillar slots of the legacy network, claimable with secp256k1 keys the harness holds
+	for i, n := 0, c.Weighted("spec.swapKeys", 2, 2, 1); i < n; i++ {
+		spec.Swap = append(spec.Swap, sim.SwapSpec{Key: i, Znn: int64(c.Int("spec.swap.znn", 0, 3000)), Qsr: int64(c.Int("spec.swap.qsr", 0, 30000)),
+			Pillars: uint8(c.Weighted("spec.swap.pillars", 2, 1, 1))})
+	}
 	// extra accounts get plasma through genesis fusions so that they can act once funded
 	for i := 0; i < 3; i++ {
 		spec.Fusions = append(spec.Fusions, sim.FusionSpec{Owner: sim.UserKey(0).Address, Beneficiary: sim.ExtraKey(i).Address, Amount: 2000,
